@@ -1,6 +1,7 @@
 """Implementation side of the analyzer commands (C14-C16); the model side is lean/MsqModel/Driver/CmdAnalyze.lean.
 
 AN tables <all|from|join> <dialect> <hex text>
+AN columns <all|select|join|where|group|having|order|hash> <dialect> <hex text>
 """
 import canon
 
@@ -22,7 +23,27 @@ def an_tables(kind, dialect, text):
         return canon.err_kind(e)
 
 
+def an_columns(kind, dialect, text):
+    from metasequoia_sql import analyzer as A
+    table = {"all": A.CurrentUsedQuoteColumn, "select": A.CurrentSelectClauseUsedQuoteColumn, "join": A.CurrentJoinClauseUsedQuoteColumn,
+             "where": A.CurrentWhereClauseUsedQuoteColumn, "group": A.CurrentGroupByClauseUsedQuoteColumn, "having": A.CurrentHavingClauseUsedQuoteColumn,
+             "order": A.CurrentOrderByClauseUsedQuoteColumn, "hash": A.CurrentColumnSelectToDirectQuoteHash}
+    cls = table.get(kind)
+    if cls is None:
+        return "BADREQ kind"
+    try:
+        stmt = _first_statement(dialect, text)
+        res = cls.handle(stmt)
+        if kind == "hash":
+            res = [(k, v) for k, v in res.items()]      # the dict in insertion order
+        return "OK " + canon.dump(res)
+    except Exception as e:
+        return canon.err_kind(e)
+
+
 def an(parts):
+    if len(parts) == 5 and parts[1] == "columns":
+        return an_columns(parts[2], parts[3], canon.unhex(parts[4]))
     if len(parts) == 5 and parts[1] == "tables":
         return an_tables(parts[2], parts[3], canon.unhex(parts[4]))
     return "BADREQ"
